@@ -92,9 +92,9 @@ def same_obs(a, b, exact):
 def run(R, tier, seed, driver_ok):
     quiet()
     rng = np.random.RandomState(seed + 1717)
-    n_hist = 2 if tier == 'quick' else 8
-    hist_len = 12 if tier == 'quick' else 40
-    R.rule = ('17 estimators × random histories (length 12 quick / 40 thorough) over the operation alphabet, datasets of differing sizes and '
+    n_hist = 2 if tier == 'quick' else 5
+    hist_len = 12 if tier == 'quick' else 30
+    R.rule = ('17 estimators × random histories (length 12 quick / 30 thorough) over the operation alphabet, datasets of differing sizes and '
               'dimensionalities, integer seeds, array-valued hyper-parameters (init / prior / basis / bounds / weights / preprocessor). '
               'case = (estimator, history prefix); non-trivial = the prefix contains a fit; distinct by hash of the operation sequence')
     R.assumptions = ['the map seed → random draws (numpy) is trusted; pickle / clone are CPython / scikit-learn behaviour (observed)']
